@@ -157,6 +157,9 @@ def _semantic(ck, ctx):
                                              dict(copy.deepcopy(ents["table_name"]), table_name=w("t2", "Items", "y_2")), copy.deepcopy(ents["domain_name"]),
                                              dict(copy.deepcopy(ents["table_name"]), table_name=w("t3", "Users", "z_3"))],
         "only optional kinds": [copy.deepcopy(ents["database_name"]), copy.deepcopy(ents["tablespace_name"])],
+        # comment texts can be empty (a bare `--` after code): they are comment texts all the same
+        "only blank comment texts": [copy.deepcopy(ents["table_name"]), {"comments": ["", ""]}],
+        "one blank comment text": [{"comments": [""]}],
     }
     for k in kinds:
         scenarios[f"only: {k}"] = [copy.deepcopy(ents[k])]
@@ -221,6 +224,7 @@ def _semantic(ck, ctx):
         "comments only": [copy.deepcopy(comments)],
         "two tables, a sequence, comments": [ptable(w("t", "Orders", "x_1")), copy.deepcopy(ents["sequence_name"]), ptable(w("u", "Items", "y_2")), copy.deepcopy(comments)],
         "optional kinds only": [copy.deepcopy(ents["database_name"]), copy.deepcopy(ents["tablespace_name"])],
+        "a table and blank comment texts": [ptable(w("t", "Orders", "x_1")), {"comments": ["", ""]}],
         # statements that are not entities: whatever the formatter does with them (today: ValueError), the grouped result is the
         # regrouping of the flat one
         "an ALTER naming a table the script does not define": [ptable(w("t", "Orders", "x_1")), copy.deepcopy(ents["sequence_name"]),
